@@ -13,8 +13,13 @@ Positive-definiteness of the returned covariance and the existence of every inve
 are PROVED for all orders from positive-definiteness of the block-Toeplitz covariance matrix
 (`lwr_sigma_posDef`, `invOK_of_toeplitzPD`, `toeplitzPD_of_full`).
 The driver's Gauss–Jordan `inv` is proved to return a two-sided inverse whenever it returns
-(`gjInv_contract`).  Not proved: that lists of rows of a fixed size form the star ring the theorems are
-stated over (dimension discipline of `SqMat n`); Float ≈ ℂ.
+(`gjInv_contract`).  The driver's list-of-rows matrix operations (`Model/SqMatK.lean`, `GSq K n`) are
+proved to be the `Matrix (Fin n) (Fin n) ℂ` operations on well-shaped inputs, one lemma per operation
+(`Lemmas/SqMatBridge.lean`, collected in `gsq_matHom`), so that the recursion run on lists of rows at
+`K = ℂ` IS the matrix recursion (`lwrLoop_concrete`) and `lwr_solves` specialises to the executable
+text (`lwr_solves_concrete`, with the checkable hypothesis "every elimination succeeds").
+`analyzer_retarget_model`: a `GrangerAnalyzer` re-targeted with `set_input` reports the fit of the
+input it currently holds, for every history.  Not proved: Float ≈ ℂ.
 -/
 import Nitime.Model.C11
 import Nitime.Lemmas.BlockLevinson
@@ -25,6 +30,9 @@ import Nitime.Lemmas.ARInst
 import Nitime.Props.C10
 import Mathlib.LinearAlgebra.Matrix.NonsingularInverse
 import Mathlib.LinearAlgebra.Matrix.PosDef
+import Nitime.Lemmas.SqMatBridge
+import Nitime.Lemmas.LWRTransport
+import Nitime.Lemmas.GrangerObj
 
 open Finset
 open Nitime.AR Nitime.C11
@@ -758,6 +766,127 @@ theorem gjInv_contract (n : ℕ) (a x : List (List ℂ)) (h : Nitime.AR.GMat.inv
     Nitime.AR.GMat.toMatrix n x * Nitime.AR.GMat.toMatrix n a = 1 ∧
     Nitime.AR.GMat.toMatrix n a * Nitime.AR.GMat.toMatrix n x = 1 :=
   Nitime.AR.GMat.inv?_left_inverse n a x h
+
+/-! ### the executable text (lists of rows) at `K = ℂ` -/
+section concrete
+open Matrix Nitime.AR.GMat
+variable {n : ℕ}
+
+/-- the `SqMat n` instance of `ARBase.lean` is, operation by operation, the `K = CF` instance of the
+generic list-of-rows text the driver runs -/
+theorem sqMat_ops_eq (n : ℕ) : (inferInstanceAs (MatOps (SqMat n))) = instMatOpsGSq CF n := rfl
+
+/-- **lists of rows are matrices.** Every `MatOps` operation of `GSq ℂ n` preserves "n rows of n
+entries" and commutes with `toMatrix` (one lemma per operation in `Lemmas/SqMatBridge.lean`); the
+driver's Gauss–Jordan `inv` becomes the matrix function `invM n`. -/
+theorem gsq_matHom (n : ℕ) :
+    @MatHom (GSq ℂ n) (Matrix (Fin n) (Fin n) ℂ) (instMatOpsGSq ℂ n) (ringOps (invM n))
+      (WF n) (toMatrix n) :=
+  @MatHom.mk (GSq ℂ n) (Matrix (Fin n) (Fin n) ℂ) (instMatOpsGSq ℂ n) (ringOps (invM n)) (WF n) (toMatrix n)
+    (fun _ _ ha hb => ⟨wf_zipW _ ha hb, toMatrix_madd ha hb⟩)
+    (fun _ _ ha hb => ⟨wf_zipW _ ha hb, toMatrix_msub ha hb⟩)
+    (fun a b _ _ => ⟨wf_ofFn n _, toMatrix_mmul n a b⟩)
+    (fun _ ha => ⟨wf_mneg ha, toMatrix_mneg ha⟩)
+    (fun a _ => ⟨wf_ofFn n _, (toMatrix_ctrans n a).trans (Matrix.star_eq_conjTranspose _).symm⟩)
+    (fun a ha => ⟨wf_minv n a, toMatrix_minv ha⟩)
+    ⟨wf_ofFn n _, toMatrix_ident n⟩
+    ⟨wf_ofFn n _, toMatrix_zeros n⟩
+
+/-- **the loop on lists of rows is the loop on matrices**: every matrix `lwr_recursion` meets is
+well shaped, and the state reached on `toMatrix ∘ r` is the entrywise image of the state reached by
+the executable text on `r`. -/
+theorem lwrLoop_concrete (r : ℕ → GSq ℂ n) (hr : ∀ k, WF n (r k)) (p : ℕ) :
+    (∀ x ∈ (@lwrLoop _ (instMatOpsGSq ℂ n) r p).a, WF n x) ∧
+    (∀ x ∈ (@lwrLoop _ (instMatOpsGSq ℂ n) r p).b, WF n x) ∧
+    WF n (@lwrLoop _ (instMatOpsGSq ℂ n) r p).sigf ∧ WF n (@lwrLoop _ (instMatOpsGSq ℂ n) r p).sigb ∧
+    @lwrLoop _ (ringOps (invM n)) (fun k => toMatrix n (r k)) p
+      = ⟨(@lwrLoop _ (instMatOpsGSq ℂ n) r p).a.map (toMatrix n),
+         (@lwrLoop _ (instMatOpsGSq ℂ n) r p).b.map (toMatrix n),
+         toMatrix n (@lwrLoop _ (instMatOpsGSq ℂ n) r p).sigf,
+         toMatrix n (@lwrLoop _ (instMatOpsGSq ℂ n) r p).sigb⟩ :=
+  @lwrLoop_hom (GSq ℂ n) (Matrix (Fin n) (Fin n) ℂ) (instMatOpsGSq ℂ n) (ringOps (invM n))
+    (WF n) (toMatrix n) (gsq_matHom n) r hr p
+
+/-- **C11 block Yule–Walker for the executable text.** Run on `n × n` lists of rows of complex
+numbers (the same `lwr` over the same `GSq K n` operations the driver executes at complex
+binary64), with `R(0)` Hermitian and every Gauss–Jordan elimination the recursion performs
+succeeding (`inv?` returns), the returned lists of rows, read as matrices, satisfy
+`Σ_{i=0..P} A(i)·R(k−i) = 0` (`k = 1..P`, `A(0) = I`, `R(−m) = R(m)ᴴ`) and the returned covariance is
+`Σ_i A(i)·R(−i)`. -/
+theorem lwr_solves_concrete (r : ℕ → GSq ℂ n) (hr : ∀ k, WF n (r k))
+    (h0 : (toMatrix n (r 0))ᴴ = toMatrix n (r 0)) (P : ℕ)
+    (hinv : ∀ j, j < P → (inv? n (@lwrLoop _ (instMatOpsGSq ℂ n) r j).sigf).isSome ∧
+                         (inv? n (@lwrLoop _ (instMatOpsGSq ℂ n) r j).sigb).isSome) :
+    (∀ k : ℕ, 1 ≤ k → k ≤ P →
+      ∑ i ∈ range (P + 1), coefA ((@lwr _ (instMatOpsGSq ℂ n) r P).1.map (toMatrix n)) i
+          * Rext (fun m => toMatrix n (r m)) ((k : ℤ) - i) = 0) ∧
+    toMatrix n (@lwr _ (instMatOpsGSq ℂ n) r P).2
+      = ∑ i ∈ range (P + 1), coefA ((@lwr _ (instMatOpsGSq ℂ n) r P).1.map (toMatrix n)) i
+          * Rext (fun m => toMatrix n (r m)) (-(i : ℤ)) := by
+  have hOK : InvOK (invM n) (fun m => toMatrix n (r m)) P := by
+    intro j hj
+    obtain ⟨_, _, wsf, wsb, e⟩ := lwrLoop_concrete r hr j
+    rw [e]
+    simp only
+    rw [← toMatrix_minv wsf, ← toMatrix_minv wsb]
+    exact ⟨minv_left_inverse n _ (hinv j hj).1, minv_left_inverse n _ (hinv j hj).2⟩
+  have h0' : star (toMatrix n (r 0)) = toMatrix n (r 0) := by
+    rw [Matrix.star_eq_conjTranspose]; exact h0
+  have hs := lwr_solves (invM n) (fun m => toMatrix n (r m)) h0' P hOK
+  have e := (lwrLoop_concrete r hr P).2.2.2.2
+  have e1 : (@lwr _ (ringOps (invM n)) (fun m => toMatrix n (r m)) P).1
+      = (@lwr _ (instMatOpsGSq ℂ n) r P).1.map (toMatrix n) := by
+    unfold lwr; rw [e]
+  have e2 : (@lwr _ (ringOps (invM n)) (fun m => toMatrix n (r m)) P).2
+      = toMatrix n (@lwr _ (instMatOpsGSq ℂ n) r P).2 := by
+    unfold lwr; rw [e]
+  rw [e1, e2] at hs
+  exact hs
+
+/-- non-vacuity: the white sequence `R = δ·I` of 1×1 lists of rows meets every hypothesis at order 1 -/
+example : (inv? 1 (@lwrLoop _ (instMatOpsGSq ℂ 1) (fun k => if k = 0 then ident 1 else zeros 1) 0).sigf).isSome := by
+  simp [lwrLoop, inv?, gjReduce, gjStep, pivotRow, augment, isIdentLeft, ident, ofFn, entry, List.range_succ,
+    sc_beq]
+
+end concrete
+
+/-! ### `GrangerAnalyzer` re-targeted with `set_input` -/
+section analyzer
+open Nitime.GrangerObj
+
+/-- **C11 analyzer re-targeted.** For EVERY history of `set_input`s and reads of model-derived
+attributes (`order`, `autocov`, `model_coef`, `error_cov` = projections of `_model`) on one
+`GrangerAnalyzer`, each read returns `fit_model` of the pairs of the input the analyzer holds at
+that moment (`ref`), never of an earlier one. -/
+theorem analyzer_retarget_model (crit : String) (order : ℤ) (maxo : ℕ) (ops : List (Op GIn)) (d : GIn) :
+    run (gFit crit order maxo) (fun _ _ => ()) (fun _ => ()) ops
+        (construct d : Obj GIn (List Fit) Unit Unit)
+      = ref (gFit crit order maxo) (fun _ _ => ()) (fun _ => ()) ops d :=
+  run_eq_ref _ _ _ ops d
+
+/-- in particular: whatever was read before, after `set_input(d')` the model is the fit of `d'` -/
+theorem analyzer_model_after_set_input (crit : String) (order : ℤ) (maxo : ℕ) (pre : List (Op GIn))
+    (d0 d' : GIn) :
+    (run (gFit crit order maxo) (fun _ _ => ()) (fun _ => ())
+        (pre ++ [.setInput d', .readModel, .readGC, .readFreqs])
+        (construct d0 : Obj GIn (List Fit) Unit Unit)).getD (pre.length + 1) .done
+      = .model (gFit crit order maxo d') := by
+  rw [read_after_setInput]
+  have hl : (ref (gFit crit order maxo) (fun _ _ => ()) (fun _ => ()) pre d0).length = pre.length := by
+    generalize d0 = d
+    induction pre generalizing d with
+    | nil => rfl
+    | cons o os ih => cases o <;> simp [ref, ih]
+  simp [List.getD_eq_getElem?_getD, List.getElem?_append_right, hl]
+
+/-- non-vacuity: a read, a re-target, a read -/
+example (d0 d' : GIn) :
+    run (gFit "bic" 1 10) (fun _ _ => ()) (fun _ => ()) [.readModel, .setInput d', .readModel]
+        (construct d0 : Obj GIn (List Fit) Unit Unit)
+      = [.model (gFit "bic" 1 10 d0), .done, .model (gFit "bic" 1 10 d')] := by
+  rw [analyzer_retarget_model]; rfl
+
+end analyzer
 
 /-! ### non-vacuity -/
 
